@@ -3,7 +3,7 @@
    objects; concrete printers). Statements are fixed. *)
 From QV Require Import Base.Bytes File.StrictSyntax File.ReadStrict Obj.Queue Obj.C01QueueProofs Obj.WriterModel
   Obj.WmPrinters Obj.C01WriterProofs Obj.C01RoundtripProofs.
-From QV Require Import File.C02Proofs.
+From QV Require Import File.WriterArith File.C02Proofs.
 From Coq Require Import Lia.
 Local Open Scope N_scope.
 
@@ -273,3 +273,37 @@ Proof.
     + rewrite Hchunk, !app_length in Hlen. lia.
   - unfold offset_of. lia.
 Qed.
+
+(* ------------------------------------------------------------------------------------------------
+   Further steps towards write_read_iso (statements fixed; same rules). *)
+
+(* stream objects: the strict parser finds the dictionary, the data at the recorded position with the
+   written /Length, and endstream/endobj exactly where the model put them *)
+Lemma emitted_stream_parses_lemma : forall d id i data fuel,
+  doc_closed d -> wf_doc_objs d ->
+  In id (written (graph_of d) (roots_of d)) -> find_obj (d_objects d) id = Some i -> i_stream i = Some data ->
+  (exists dd, i_val i = ODict dd) ->
+  let out := write_doc wm_unparse_string wm_unparse_name d in
+  (length out < fuel)%nat ->
+  exists off e doff v,
+    In (doc_ren d id, off) (body_offsets wm_unparse_string wm_unparse_name d) /\
+    parse_indirect fuel (N.of_nat (length out)) out off (fun _ => None)
+    = inl (Some {| so_num := doc_ren d id; so_gen := 0; so_where := XInUse off 0;
+                   so_val := v; so_stream := Some (doff, N.of_nat (length data)); so_end := e |})
+    /\ firstn (length data) (skipn (N.to_nat doff) out) = data
+    /\ off < doff /\ doff + N.of_nat (length data) < e.
+Proof. Abort.
+
+(* the header of the model's output is a strict header *)
+Lemma model_header_parses_lemma : forall d a b,
+  d_version d = [a; 46; b] -> is_digit a = true -> is_digit b = true ->
+  exists rest, parse_header (write_doc wm_unparse_string wm_unparse_name d) = Some ([a; 46; b], rest)
+               /\ length rest = (length (write_doc wm_unparse_string wm_unparse_name d) - length (header (d_version d)))%nat.
+Proof. Abort.
+
+(* the classic cross-reference table the model writes is read by the strict reader as: object 0 free,
+   and for every written object an in-use entry with generation 0 pointing exactly at its recorded offset *)
+Lemma model_xref_entries_lemma : forall offs rest, Forall (fun ko => snd ko < 10 ^ 10) offs ->
+  xref_entries (length offs) 1 (flat_map (fun ko => xref_line (snd ko)) offs ++ rest) []
+  = Some (rev (map (fun p : N * (N * N) => (fst p, XInUse (snd (snd p)) 0)) (combine (map N.of_nat (seq 1 (length offs))) offs)), rest).
+Proof. Abort.
